@@ -165,4 +165,13 @@ def ingressOne (ing : Ingress) (acceptOk : Bool) (env : Env) (req : Msg) : List 
   | .native => if !acceptOk then [.closeConn] else serveOne env req
   | _ => (httpOne acceptOk env req).1
 
+/-- one connection on the native ingress: `serveConn`'s read loop over the requests the peer sends, each
+    meeting its own environment (the verdicts of plugins, auth, registry and handler for THAT request);
+    the loop ends when a request's processing closes the connection – later requests are never read -/
+def serveConn : List (Env × Msg) → List Action
+  | [] => []
+  | (env, req) :: rest =>
+    let a := serveOne env req
+    if Action.closeConn ∈ a then a else a ++ serveConn rest
+
 end Rpcx.Srv
